@@ -7,7 +7,7 @@ From PegV Require Import Base.Tac Spec.Syntax Spec.Peg Model.Machine Model.Gen P
     the invariant that every memo entry equals what re-running the rule returns (replay restores
     position and tokens exactly) and that re-running could not move maxToken. *)
 Theorem C06_memo_invisible :
-  forall g ptx buf penv, good_grammar g -> good_buf buf ->
+  forall g ptx buf penv, good_grammar g -> good_buf buf -> good_switches g ->
   forall inline n r st0 st0' rr,
     slot_ok g inline r -> peg_parse g ptx buf penv n r = Some rr ->
     exists b st1 st2,
